@@ -486,7 +486,7 @@ pub fn drop_fixtures() {
 // ------------------------------------------------------------------------------------------------
 
 pub fn count(tier: Tier) -> u64 {
-    tier.pick(12, 96)
+    tier.pick(36, 144)
 }
 
 pub fn gen(seed: u64, tier: Tier, k: u64) -> Value {
